@@ -133,6 +133,61 @@ def month_code_guard(run, fx, rs):
         run.ok(rule, "validate", "accepted codes have numbers in 1..=13, ISO only M01..M12 (%d folds decided, %d not)" % (decided, und), f.loc)
 
 
+def month_code_syntax(run, fx, rs):
+    rule = "R8.month-code-syntax"
+    run.rule(rule, "MonthCode::try_from_utf8 is the only way caller bytes become a MonthCode; the `- 48` arithmetic and the "
+                   "debug assertions of ascii_four_to_integer rely on bytes 1 and 2 being ASCII digits. Folded on byte strings "
+                   "of length 0..=5 built from the neighbours of every character class boundary (M, digits, L), it must "
+                   "accept exactly M<digit><digit> and M<digit><digit>L")
+    f = rs.fn1("types::MonthCode::try_from_utf8")
+    if f is None:
+        run.undecided.append({"rule": rule, "key": "try_from_utf8", "gone": ["MonthCode::try_from_utf8"]})
+        return
+    first = "LMN"
+    mid = "/09:A"
+    last = ["", "K", "L", "M"]
+    cands = ["", "M", "M0", "M00LL", "M01L0"]
+    for a in first:
+        for b in mid:
+            for c in mid:
+                for d in last:
+                    cands.append(a + b + c + d)
+    decided = und = 0
+    wrong_ok, wrong_err = [], []
+    for sx in cands:
+        ev = H.Evaluator(fx)
+        ev.inline = lambda p: p.startswith("temporal_rs::")
+        ev.lossy = []
+        try:
+            r = ev.call_fn(f, [H.T(tuple(ord(ch) for ch in sx))])
+        except (H.Panic, H.Budget):
+            und += 1
+            continue
+        ok = isinstance(r, H.V) and r.path == H.OK
+        if ev.lossy or not (ok or is_err(r)) or (ok and H.has_sym(r)):
+            und += 1
+            continue
+        decided += 1
+        want = len(sx) in (3, 4) and sx[0] == "M" and sx[1].isdigit() and sx[2].isdigit() and (len(sx) == 3 or sx[3] == "L")
+        if ok and not want:
+            wrong_ok.append(sx)
+        elif want and not ok:
+            wrong_err.append(sx)
+    run.analysed["month_code_syntax_folds_decided"] = decided
+    run.analysed["month_code_syntax_folds_undecided"] = und
+    run.exhaustive_tables.append("MonthCode::try_from_utf8: %d boundary byte strings (%d decided)" % (len(cands), decided))
+    if decided == 0:
+        run.undecided.append({"rule": rule, "key": "try_from_utf8", "why": "does not fold on concrete bytes"})
+        run.ok(rule, "try_from_utf8", "does not fold: not decided", f.loc, nontrivial=False)
+        return
+    run.check(not wrong_ok, rule, "try_from_utf8/accepts-only-digits",
+              "only M<d><d>[L] is accepted (%d folds decided, %d not)" % (decided, und),
+              "MonthCode::try_from_utf8 accepts %s: bytes 1-2 are not ASCII digits / the code is malformed, and the month "
+              "arithmetic (`byte - 48`, debug assertions) runs on them" % ", ".join(repr(x) for x in wrong_ok[:6]), f.loc)
+    # well-formed codes that are rejected (a stricter syntax check) are not a panic: counted, not judged
+    run.analysed["month_code_syntax_wellformed_rejected"] = len(wrong_err)
+
+
 def digit_unwraps(run, fx):
     rule = "R8.digit-unwrap-guard"
     run.rule(rule, "an unwrapped `char::to_digit(r)` is preceded, in the function that unwraps it or its callees, by a test that "
@@ -462,6 +517,7 @@ def main(tier):
         run.check(ok, rule, key, "reviewed: " + ent["reason"][:150], "%s in %s: %s" % (kind, f.name, why), loc)
     digit_unwraps(run, fx)
     month_code_guard(run, fx, rs)
+    month_code_syntax(run, fx, rs)
     r9(run, fx)
     stale = [k for k in review if k not in used and not any(k == "%s/%s#%d" % (f.path, kd, o) for f, kd, o, _, _ in inv)]
     run.analysed["review_entries"] = len(review)
